@@ -30,7 +30,7 @@ CHECK = dict(
     technique="runtime monitoring: realpath containment on a real directory tree with symlink layouts",
 )
 
-NLAYOUTS = 6
+NLAYOUTS = 7
 
 
 def shards(tier, seed, scale):
@@ -69,6 +69,24 @@ def build_layout(root, k):
     elif k == 5:    # loops
         links = [("loop1", "loop2"), ("loop2", "loop1"), ("self", "self"), ("a/dloop", "../a"),
                  ("a/b/up", ".."), ("lf_abs", out_abs + "/secret.txt"), ("a/aloop", "/a/aloop")]
+    chains = []
+    if k == 6:      # long chains (1..12 links) ending outside (absolute / climbing), inside, or looping
+        os.makedirs(os.path.join(sb, "ch"))
+        for length in range(1, 13):
+            for tail, target in (("abs_out", out_abs + "/secret.txt"), ("climb_out", "../outside/secret.txt"),
+                                 ("climb2_out", "../../../../../etc/passwd"), ("inside", "a/f.txt"),
+                                 ("abs_guest", "/etc/passwd"), ("loop", None)):
+                cname = "c%d%s" % (length, tail)
+                for i in range(length):
+                    if i + 1 < length:
+                        # hops: same directory, via '.', via a guest-absolute path
+                        hop = ["%s_%d", "./%s_%d", "a/../%s_%d"][(i + length) % 3] % (cname, i + 1)
+                    elif target is None:
+                        hop = "%s_0" % cname
+                    else:
+                        hop = target
+                    links.append(("%s_%d" % (cname, i), hop))
+                chains.append((cname, length, tail))
     if k:
         links.append(("c:/wl", "../../outside"))
     for name, target in links:
@@ -77,12 +95,14 @@ def build_layout(root, k):
                    "c:/f.txt", "c:/a/f.txt", "c:/a"]
     for name, target in links:
         interesting.append(name)
+        if k == 6:
+            continue
         for tail in ("secret.txt", "dir/file.txt", "f.txt", "b/c.txt", "etc/passwd", "outside/secret.txt",
                      "sb/f.txt"):
             interesting.append(name + "/" + tail)
     names = sorted(set(c for p in interesting for c in p.split("/") if c))
     names += ["outside", "secret.txt", "sb", "cwd", "nonexist", "passwd"]
-    return sb, interesting, sorted(set(names)), [l[0] for l in links]
+    return sb, interesting, sorted(set(names)), [l[0] for l in links], chains
 
 
 # ------------------------------------------------------------------ guest path grammar
@@ -284,10 +304,11 @@ def run_shard(params, rec):
     scratch = os.environ.get("VERIF_SCRATCH_DIR") or os.environ["TMPDIR"]
     top = os.path.join(scratch, "c46_%s_%s" % (params.get("seed", 0), params["shard"]))
     n = params["n"]
+    tier_quick = params.get("tier") == "quick"
 
     for k in range(NLAYOUTS):
         root = os.path.join(top, "L%d" % k)
-        base, interesting, names, links = build_layout(root, k)
+        base, interesting, names, links, chains = build_layout(root, k)
         os.chdir(os.path.join(root, "cwd"))
         orc = Oracle(base)
         link_names = set(l.split("/")[-1] for l in links)
@@ -310,6 +331,76 @@ def run_shard(params, rec):
                 return True
             return bool(re.match(r"/proc/self/.*", norm) or re.match(r"/sys/.*", norm))
 
+        def do_resolve(guest, comps, fs, fsname, as_bytes, follow):
+            arg = guest.encode() if as_bytes else guest
+        fn = "resolve_path"
+        rec.ev()
+        rec.count("fn:resolve_path")
+        rec.count("resolve_path:%s" % ("bytes" if as_bytes else "str"))
+        rec.count("resolve_path:follow_link=%s" % follow)
+        rec.count("resolve_path:fs=%s" % fsname)
+        if nontrivial(comps):
+            rec.distinct("rp/%d/%s/%s" % (k, guest, follow))
+        try:
+            res = fs.resolve_path(arg, follow_link=follow)
+        except AssertionError:
+            rec.count("resolve_path:refused(assert)")
+            return
+        except RecursionError:
+            rec.count("resolve_path:recursion_on_loop")
+            if k not in (5, 6):
+                rec.fail("resolve_path: RecursionError without a link loop", guest,
+                         dict(layout=k, guest=guest))
+            return
+        except Exception as exc:
+            rec.fail("resolve_path raises %s" % type(exc).__name__, "%r: %r" % (guest, exc),
+                     dict(layout=k, guest=guest, bytes=as_bytes, follow_link=follow))
+            return
+        if isinstance(res, bytes) != as_bytes:
+            rec.count("resolve_path:result_type_differs_from_argument")
+        host = to_text(res)
+        if fs is fs_pass and pass_match(guest):
+            rec.count("resolve_path:passthrough_matched")
+            if host == os.path.normpath(guest):
+                rec.count("resolve_path:passthrough_returned_as_is")
+            return
+        host_abs = host if os.path.isabs(host) else os.path.join(os.getcwd(), host)
+        status, real, why = orc.walk(host_abs, follow)
+        if follow and status != "dead" and os.path.exists(host_abs):
+            # harness sanity: the walk and the C library agree where an existing path leads
+            assert os.path.realpath(host_abs) == real, (host_abs, real)
+        if status == "dead":
+            rec.count("resolve_path:dead_path(kernel would refuse)")
+            return
+        if status == "inside":
+            rec.count("resolve_path:inside")
+            if os.path.lexists(host):
+                rec.count("resolve_path:inside_and_exists")
+            if real != os.path.normpath(host_abs):
+                rec.count("resolve_path:inside_through_link")
+            if rec.evaluations % 997 == 0:
+                rec.sample(dict(fn=fn, layout=k, guest=guest, host=host.replace(top, "<top>"),
+                                real=real.replace(top, "<top>")))
+            return
+        # ---- escape: classify the mechanism
+        gnorm = os.path.normpath(guest)
+        lead = gnorm == ".." or gnorm.startswith("../")
+        final_link = os.path.islink(os.path.join(base, gnorm.lstrip("/")))
+        if not follow and final_link and why == orc.T:
+            key = ("resolve_path(follow_link=False): a final symbolic link yields its guest target, "
+                   "not a host path in the sandbox")
+        elif why in (orc.D, orc.DL) and lead:
+            key = "resolve_path: leading '..' of a relative guest path survives normpath"
+        elif why in (orc.D, orc.DL) and follow and final_link:
+            key = "resolve_path: relative target of a final symbolic link climbs above the base"
+        else:
+            key = "resolve_path: " + why
+        rec.count("resolve_path:escape")
+        rec.fail(key, "guest %r -> host %r -> real %r (base %r)" % (guest, host, real, orc.base_real),
+                 dict(layout=k, guest=guest, bytes=as_bytes, follow_link=follow, fs=fsname,
+                      host=host.replace(top, "<top>"), real=real.replace(top, "<top>"),
+                      readable=os.path.isfile(real)))
+
         for i in range(n):
             which = rng.random()
             if which < 0.08:
@@ -322,74 +413,24 @@ def run_shard(params, rec):
                     (fs_pass, "passthrough") if which < 0.9 else (fs_rel, "relbase"))
             as_bytes = rng.random() < 0.35
             follow = rng.random() < 0.8
-            arg = guest.encode() if as_bytes else guest
-            fn = "resolve_path"
-            rec.ev()
-            rec.count("fn:resolve_path")
-            rec.count("resolve_path:%s" % ("bytes" if as_bytes else "str"))
-            rec.count("resolve_path:follow_link=%s" % follow)
-            rec.count("resolve_path:fs=%s" % fsname)
-            if nontrivial(comps):
-                rec.distinct("rp/%d/%s/%s" % (k, guest, follow))
-            try:
-                res = fs.resolve_path(arg, follow_link=follow)
-            except AssertionError:
-                rec.count("resolve_path:refused(assert)")
-                continue
-            except RecursionError:
-                rec.count("resolve_path:recursion_on_loop")
-                if k not in (5,):
-                    rec.fail("resolve_path: RecursionError without a link loop", guest,
-                             dict(layout=k, guest=guest))
-                continue
-            except Exception as exc:
-                rec.fail("resolve_path raises %s" % type(exc).__name__, "%r: %r" % (guest, exc),
-                         dict(layout=k, guest=guest, bytes=as_bytes, follow_link=follow))
-                continue
-            if isinstance(res, bytes) != as_bytes:
-                rec.count("resolve_path:result_type_differs_from_argument")
-            host = to_text(res)
-            if fs is fs_pass and pass_match(guest):
-                rec.count("resolve_path:passthrough_matched")
-                if host == os.path.normpath(guest):
-                    rec.count("resolve_path:passthrough_returned_as_is")
-                continue
-            host_abs = host if os.path.isabs(host) else os.path.join(os.getcwd(), host)
-            status, real, why = orc.walk(host_abs, follow)
-            if follow and status != "dead" and os.path.exists(host_abs):
-                # harness sanity: the walk and the C library agree where an existing path leads
-                assert os.path.realpath(host_abs) == real, (host_abs, real)
-            if status == "dead":
-                rec.count("resolve_path:dead_path(kernel would refuse)")
-                continue
-            if status == "inside":
-                rec.count("resolve_path:inside")
-                if os.path.lexists(host):
-                    rec.count("resolve_path:inside_and_exists")
-                if real != os.path.normpath(host_abs):
-                    rec.count("resolve_path:inside_through_link")
-                if rec.evaluations % 997 == 0:
-                    rec.sample(dict(fn=fn, layout=k, guest=guest, host=host.replace(top, "<top>"),
-                                    real=real.replace(top, "<top>")))
-                continue
-            # ---- escape: classify the mechanism
-            gnorm = os.path.normpath(guest)
-            lead = gnorm == ".." or gnorm.startswith("../")
-            final_link = os.path.islink(os.path.join(base, gnorm.lstrip("/")))
-            if not follow and final_link and why == orc.T:
-                key = ("resolve_path(follow_link=False): a final symbolic link yields its guest target, "
-                       "not a host path in the sandbox")
-            elif why in (orc.D, orc.DL) and lead:
-                key = "resolve_path: leading '..' of a relative guest path survives normpath"
-            elif why in (orc.D, orc.DL) and follow and final_link:
-                key = "resolve_path: relative target of a final symbolic link climbs above the base"
-            else:
-                key = "resolve_path: " + why
-            rec.count("resolve_path:escape")
-            rec.fail(key, "guest %r -> host %r -> real %r (base %r)" % (guest, host, real, orc.base_real),
-                     dict(layout=k, guest=guest, bytes=as_bytes, follow_link=follow, fs=fsname,
-                          host=host.replace(top, "<top>"), real=real.replace(top, "<top>"),
-                          readable=os.path.isfile(real)))
+            do_resolve(guest, comps, fs, fsname, as_bytes, follow)
+
+        # ---------------- long symbolic-link chains: every entry point of every chain
+        for cname, length, tail in chains:
+            for start in range(length):
+                remaining = length - start
+                for rep in range(2 if tier_quick else 6):
+                    lead = rng.choice(["/", "", "//", "./", "/a/../", "/ch/../"])
+                    trail = rng.choice(["", "", "/", "/."])
+                    guest = "%s%s_%d%s" % (lead, cname, start, trail)
+                    follow = rng.random() < 0.85
+                    rec.count("chain:entered_with_%d_links_ahead" % remaining)
+                    rec.count("chain:tail=%s" % tail)
+                    if remaining >= 9 and follow:
+                        rec.count("chain:followed_with>=9_links_ahead")
+                        rec.count("chain:followed_with>=9_links_ahead:tail=%s" % tail)
+                    do_resolve(guest, [cname + "_%d" % start], rng.choice([(fs_plain, "plain"), (fs_rel, "relbase")])[0],
+                               "chain", rng.random() < 0.35, follow)
 
         # ---------------- unix_to_sbpath / windows_to_sbpath
         old_base = osc.BASE_SB_PATH
@@ -448,6 +489,11 @@ def floors(tier, counters, evaluations):
             "unix_to_sbpath:inside_and_exists": 1000, "windows_to_sbpath:inside_and_exists": 1000}
     for k in range(NLAYOUTS):
         need["layout:%d" % k] = 16
+    need["chain:followed_with>=9_links_ahead"] = 2000
+    for t in ("abs_out", "climb_out", "climb2_out", "inside", "abs_guest", "loop"):
+        need["chain:followed_with>=9_links_ahead:tail=%s" % t] = 200
+    for l in range(1, 13):
+        need["chain:entered_with_%d_links_ahead" % l] = 100
     for k, v in sorted(need.items()):
         if counters.get(k, 0) < v:
             miss.append("%s = %d < %d" % (k, counters.get(k, 0), v))
